@@ -400,6 +400,15 @@ func (in *Interp) execRange(fr *frame, s *ast.RangeStmt) ctl {
 				return c
 			}
 		}
+	case []byte:
+		n := len(xv)
+		for i := 0; i < n; i++ {
+			bind(s.Key, int64(i))
+			bind(s.Value, int64(xv[i]))
+			if stop, c := body(); stop {
+				return c
+			}
+		}
 	case string:
 		for i, r := range xv {
 			bind(s.Key, int64(i))
